@@ -9,6 +9,7 @@ func init() {
 		func(c *Ctx) {
 			ruleBTWidth(c, true)
 			ruleBTRec(c)
+			ruleBTPure(c)
 			ruleRecList(c)
 			ruleBTArrMap(c)
 			rulePCArg(c, nil, 18, 3)
@@ -24,6 +25,7 @@ func init() {
 			"Not decided: equality of results under concurrent collection as a schedule property.",
 		func(c *Ctx) {
 			ruleGCTyped(c)
+			ruleALKey(c)
 			ruleGCUintptr(c)
 			ruleGCLink(c)
 			ruleGCTarget(c)
